@@ -16,7 +16,7 @@
 //!   N<r>        result of polling a subscription stream once
 //!   Xclosing    the transport's close() was entered;  Xsdrop / Xrdrop  the sender / receiver half was dropped
 //! and at the end `P<h>.<h>...` (handles still pending) and `PANIC` if anything panicked.
-//! Steps: call h | newcall h | batch h n | sub h | ondisc h | isconn | next h | back <hex> | failsend | recvfault |
+//! Steps: call h | newcall h | batch h n | sub h | ondisc h | isconn | next h | back <hex> | backsplit <hex> <ms> | failsend | recvfault |
 //!        peerclose | release-close | dropclient | settle
 //!
 //! Ping / inactivity (`ClientBuilder::enable_ws_ping`): optional config token after the slow-close flag,
@@ -27,6 +27,15 @@
 //!   quiet <ms> [class]   REAL time: the harness sleeps (in slices of 5 ms, so that the runtime runs its timers) for
 //!                        <ms> ms; nothing arrives.  The class word (alive|die) is for the model side only.
 //!   failping <ms>        arms the send fault and stays quiet for <ms> ms: the next ping write fails
+//! Cancel-safety of the receive loop: `TransportReceiverT::receive` of the real transports is NOT cancel-safe (the
+//! WebSocket transport keeps the partly read message inside the future), and so is the mock's:
+//!   backsplit <hex> <ms> the frame arrives in two halves, <ms> ms of REAL time apart.  The first poll of `receive()`
+//!                        takes the first half into state owned by THAT FUTURE (not by the receiver) and returns Pending.
+//!                        A client that keeps the future alive until it completes sees exactly what `back <hex>` shows;
+//!                        if the future is dropped in between, the first half is gone with it and the next `receive()`
+//!                        finds the tail of a frame it never saw the head of: `mock transport: desynchronised` (cause
+//!                        class `desync`), as a real framing layer would report.  Prints `T<a>.<gap>.<s>.<g>` (as `quiet`; <gap> = measured ms
+//!                        between the two halves).
 //! Because the inactivity check uses real time the engine reports what the clock did, as `T..` tokens that the
 //! python side strips before diffing: in every quiet/failping segment `T<a>.<b>.<s>.<g>` = ms since the last frame was
 //! handed to the receiver (or the client was built) at the start / at the end of the silence, the longest single
@@ -104,6 +113,9 @@ impl Drop for MockSender {
 
 enum Incoming {
 	Frame(Vec<u8>),
+	/// first / second half of a frame that arrives in two pieces
+	Head(Vec<u8>),
+	Tail(Vec<u8>),
 	Pong,
 	Fault,
 	PeerClose,
@@ -116,13 +128,27 @@ impl TransportReceiverT for MockReceiver {
 	type Error = MockErr;
 	fn receive(&mut self) -> impl Future<Output = Result<ReceivedMessage, MockErr>> + Send {
 		async move {
-			match self.frames.recv().await {
-				Some(Incoming::Frame(b)) => Ok(ReceivedMessage::Bytes(b)),
-				Some(Incoming::Pong) => Ok(ReceivedMessage::Pong),
-				Some(Incoming::Fault) => Err(MockErr("injected receive error")),
-				Some(Incoming::PeerClose) => Err(MockErr("connection closed by peer")),
-				// `receive` has no way to say "end of stream": a transport can only return a message or an error
-				None => std::future::pending().await,
+			// NOT cancel-safe, like the real transports: the part of a message read so far lives in THIS future (a local
+			// of the async block), not in the receiver.  Dropping the future between the two halves loses the first.
+			// (`mpsc::UnboundedReceiver::recv` itself is cancel-safe: nothing else is lost by a drop.)
+			let mut partial: Option<Vec<u8>> = None;
+			loop {
+				let item = self.frames.recv().await;
+				match (item, partial.take()) {
+					(Some(Incoming::Head(b)), None) => partial = Some(b),
+					(Some(Incoming::Tail(b)), Some(mut head)) => {
+						head.extend_from_slice(&b);
+						return Ok(ReceivedMessage::Bytes(head));
+					}
+					// the tail of a frame whose head this future never saw, or anything else in the middle of a frame
+					(Some(Incoming::Tail(_)), None) | (Some(_), Some(_)) => return Err(MockErr("desynchronised")),
+					(Some(Incoming::Frame(b)), None) => return Ok(ReceivedMessage::Bytes(b)),
+					(Some(Incoming::Pong), None) => return Ok(ReceivedMessage::Pong),
+					(Some(Incoming::Fault), None) => return Err(MockErr("injected receive error")),
+					(Some(Incoming::PeerClose), None) => return Err(MockErr("connection closed by peer")),
+					// `receive` has no way to say "end of stream": a transport can only return a message or an error
+					(None, _) => return std::future::pending().await,
+				}
 			}
 		}
 	}
@@ -153,6 +179,8 @@ fn cause_class(e: &Error) -> String {
 		"sendfault".into()
 	} else if s.contains("injected receive error") {
 		"recvfault".into()
+	} else if s.contains("desynchronised") {
+		"desync".into()
 	} else if s.contains("closed by peer") {
 		"peerclosed".into()
 	} else if s.contains("NotPendingRequest") {
@@ -206,6 +234,21 @@ enum Done {
 async fn settle() {
 	for _ in 0..128 {
 		tokio::task::yield_now().await;
+	}
+}
+
+/// sleeps `total` of real time in slices of 5 ms (so that the runtime runs its timers); the longest single slice
+async fn sleep_sliced(total: Duration) -> Duration {
+	let begin = Instant::now();
+	let mut worst = Duration::ZERO;
+	loop {
+		let done = begin.elapsed();
+		if done >= total {
+			return worst;
+		}
+		let slice_begin = Instant::now();
+		tokio::time::sleep((total - done).min(Duration::from_millis(5))).await;
+		worst = worst.max(slice_begin.elapsed());
 	}
 }
 
@@ -390,6 +433,30 @@ async fn run_case(line: &str) -> String {
 				last_frame = Instant::now();
 				let _ = frame_tx.send(Incoming::Frame(unhex(t[1])));
 			}
+			"backsplit" => {
+				let ms: u64 = match t.get(2).and_then(|x| x.parse().ok()) {
+					Some(ms) => ms,
+					None => return "?bad-event backsplit".into(),
+				};
+				let raw = unhex(t[1]);
+				if raw.len() < 2 {
+					return "?bad-event backsplit".into();
+				}
+				let cut = raw.len() / 2;
+				max_gap = max_gap.max(last_frame.elapsed());
+				let at_start = last_frame.elapsed().as_millis();
+				let gap_so_far = max_gap.as_millis();
+				let _ = frame_tx.send(Incoming::Head(raw[..cut].to_vec()));
+				// the pending receive() is polled and takes the first half ...
+				settle().await;
+				// ... the rest is still on its way: timers tick, nothing arrives
+				let begin = Instant::now();
+				let worst = sleep_sliced(Duration::from_millis(ms)).await;
+				extra.push(format!("T{}.{}.{}.{}", at_start, begin.elapsed().as_millis(), worst.as_millis(), gap_so_far));
+				max_gap = max_gap.max(last_frame.elapsed());
+				last_frame = Instant::now();
+				let _ = frame_tx.send(Incoming::Tail(raw[cut..].to_vec()));
+			}
 			"pong" => {
 				max_gap = max_gap.max(last_frame.elapsed());
 				last_frame = Instant::now();
@@ -416,18 +483,7 @@ async fn run_case(line: &str) -> String {
 				max_gap = max_gap.max(last_frame.elapsed());
 				let at_start = last_frame.elapsed().as_millis();
 				let gap_so_far = max_gap.as_millis();
-				let begin = Instant::now();
-				let total = Duration::from_millis(ms);
-				let mut worst = Duration::ZERO;
-				loop {
-					let done = begin.elapsed();
-					if done >= total {
-						break;
-					}
-					let slice_begin = Instant::now();
-					tokio::time::sleep((total - done).min(Duration::from_millis(5))).await;
-					worst = worst.max(slice_begin.elapsed());
-				}
+				let worst = sleep_sliced(Duration::from_millis(ms)).await;
 				extra.push(format!("T{}.{}.{}.{}", at_start, last_frame.elapsed().as_millis(), worst.as_millis(), gap_so_far));
 			}
 			"failsend" => {
